@@ -554,8 +554,11 @@ func (b *Buffer) cleanup() {
 					}
 				}()
 
-				// wait for the timer to expire
-				<-timer.C
+				// wait for the timer to expire, or the buffer to be closed (in which case nothing will be cleaned)
+				select {
+				case <-timer.C:
+				case <-b.ctx.Done():
+				}
 				verifPoint("buf.timer.fired", b, 0)
 			}()
 		}
